@@ -21,6 +21,11 @@ TEXT = {
  "C14": ("real Extend/Lookup/match on the real tree with symbolic verdicts: position among siblings, lookup of names/aliases, unchanged results when every extension rejects, immutability of earlier results", "4 C14"),
  "C17": ("monotonicity in the limit as one inductive step over the header length for each binary root format executed from its real code", "4 C17"),
  "C18": ("real Tar/tarParseOctal/tarChksum on a fully symbolic 512-byte block; obligations with 512-term sums decided over Int after interval analysis shows no wrap", "4 C18"),
+ "C02": ("structure of results for every verdict vector on the real tree, plus the format->parse round trip of hostile charset labels through the real FromHTML/FromXML, mime.FormatMediaType and mime.ParseMediaType executed symbolically", "4 C02"),
+ "C06": ("schedule-independent lock discipline (lockset + ownership + atomicity) decided on the symbolic paths of every ordered pair of public operations; interleavings are not enumerated; violations replayed under go test -race", "4 C06"),
+ "C12": ("charset.FromHTML through the real x/net/html tokenizer and FromXML through the real encoding/xml on declaration templates with symbolic labels, whitespace and case variants", "4 C12"),
+ "C15": ("real Is/EqualsAny/Lookup with mime.ParseMediaType executed symbolically over all 258 registered names in decorated and substituted spellings", "4 C15"),
+ "C19": ("real zipContains and the zip-family detectors on archives laid out by a harness zip writer with symbolic name/body bytes; oracle = the entry list written", "4 C19"),
 }
 
 NOTE = ("trusted: go/packages+go/ssa front end, the symgo executor's instruction semantics and intrinsics (engine/symgo), z3 4.8.12, "
